@@ -7,8 +7,7 @@ Import-free, executable, over `Rat`.  Mirrors `Grid1d.set_current_area`, `Trapez
 * the border-index logic (`lowerBorder`, `upperBorder`) of `set_current_area`,
 * the special case `not boundary and num_points == 1` (mid point with weight `spacing`),
 * the modified-basis weights of `TrapezoidalGrid1D.get_1d_weight`,
-* `SimpsonGrid1D.get_1D_level_weights` with its level-0 fallback and its `weights[1:-1]` for `boundary=False`
-  (which ignores the border indices — a defect that is mirrored, not repaired).
+* `SimpsonGrid1D.get_1D_level_weights` with its level-0 fallback and the slice `weights[lowerBorder:upperBorder]`.
 
 `isclose(start, a)` / `end == b` are modelled as equality of rationals (the correspondence feeds dyadic inputs).
 -/
@@ -94,9 +93,7 @@ def simpsonFull (h : Rat) (n : Nat) : List Rat :=
 /-- `SimpsonGrid1D.get_1D_level_weights` (the class is always built with `modified_basis = False`) -/
 def simpsonWeights (g : G1) : List Rat :=
   if g.nwb < 3 then (List.range g.numPoints).map (weightComposite g)
-  else
-    let w := simpsonFull g.spacing g.nwb
-    if !g.boundary then slice 1 (w.length - 1) w else w
+  else slice g.lowerBorder g.upperBorder (simpsonFull g.spacing g.nwb)
 
 /-- the two modelled families -/
 inductive Family where
